@@ -32,6 +32,7 @@ EXTENDS SlateAlgebra, Json
 
 CONSTANTS NinSet, NchSet, Emit,
           PairFlows, \* flows for which every ordered PAIR of alterations (second one on the reply) is a case (basic shape)
+          PairProof, \* subset of BOOLEAN: the `proof` values of the pairs enumerated by this process
           WithSingles \* FALSE: only the pairs (the runner splits the enumeration over several TLC processes)
 
 VARIABLE c
@@ -42,7 +43,7 @@ Singles == IF ~WithSingles THEN {} ELSE
                    stage : {"none", "pre", "post"}, tamper : Classes, tamper2 : {"none"}] : Applicable(x)}
 \* pairs: one input, one change output; a pair that cannot be composed on the actual slates (the second
 \* class needs something the first one removed) is not a case
-PairCases == {x \in [flow : PairFlows, nin : {1}, nch : {1}, incfee : {FALSE}, proof : BOOLEAN,
+PairCases == {x \in [flow : PairFlows, nin : {1}, nch : {1}, incfee : {FALSE}, proof : PairProof,
                           stage : {"pre", "post"}, tamper : PreClasses \cup PostClasses, tamper2 : PostClasses] :
                      Applicable(x) /\ Exchange(x).reply}
 AllCases == Singles \cup PairCases
